@@ -115,32 +115,32 @@ var (
 func init() {
 	register(&Property{ID: "C01", Title: "HSMS encode->decode round trip",
 		Rules:       []Rule{rEncTab, rHeader, rDispatch, rWidth, rShift, rDecHdr, rMsgLayout, rEndian, only(rIface, "hsms.parser", "consumer:"), rPayload, rAdvance, only(rImmut, "NewHSMSDataMessage", "SetSessionIDAndSystemBytes", "hsms.Parse", "(*hsms.parser)", "I5:global")},
-		Explanation: "Decides, from the source, the structural conditions every round trip depends on: each node's ToBytes requests the item header of its own E5 format (R1-encode) and the header routine emits the E5 format byte and minimal big-endian length on every cell of the size axis (R26); the decoder maps each of the 256 format-byte values to exactly the factory and width of that E5 code (R1c); every numeric branch reads its own width big-endian, reinterprets it at that width and hands the value to the factory untouched, in a type that factory accepts (R22, R2); multi-byte item lengths are accumulated without losing bits (R4); header fields are read from the offsets they are written to (R21 both directions); multi-byte values are written most significant byte first (R16).",
+		Explanation: "Decides, from the source, the structural conditions every round trip depends on: each node's ToBytes requests the item header of its own E5 format (R1-encode) and the header routine emits the E5 format byte and minimal big-endian length on every cell of the size axis (R26); the decoder maps each of the 256 format-byte values to exactly the factory and width of that E5 code (R1c); every numeric branch reads its own width big-endian, reinterprets it at that width and hands the value to the factory untouched, in a type that factory accepts (R22, R2); multi-byte item lengths are accumulated without losing bits (R4); header fields are read from the offsets they are written to (R21 both directions); multi-byte values are written most significant byte first (R16). Each element's payload bytes are the element itself (booleans 1/0, byte(v) for binary and ASCII, children in index order: R16b), the decoder advances by exactly the declared length before building an item (R5b), and a decoded message never aliases the input buffer (R12 on the decoder and the message constructors).",
 		NotDecided:  "equality of values and item trees for all inputs (round-trip equality over run-time data) and the decoder's position arithmetic are not decided; only the listed necessary conditions are.",
 		Assumptions: stdAssumptions})
 	register(&Property{ID: "C02", Title: "Encoded bytes conform to SEMI E5 / E37",
 		Rules:       []Rule{rEncTab, rHeader, rToBytes, rMsgLayout, rEndian, rLimit, rPayload},
-		Explanation: "Compares the encoder with an independent transcription of the standards: format code and element width per node type and byteSize (R1-encode), the item header routine against the E5 reference header for all 14 type names on every cell of the size axis cut at 255|256, 65535|65536, 16777215|16777216 bytes and at every constant the code compares with (R26: format byte, number of length bytes, big-endian length, error beyond the limit), the message layout byte by byte as symbolic terms (R21: 4-byte big-endian length of text+10, session id, W|stream, function, 0, 0, system bytes, item), big-endian payload emission (R16), and that an incomplete item or message encodes to the empty slice on each of its incompleteness conditions separately (R15).",
+		Explanation: "Compares the encoder with an independent transcription of the standards: format code and element width per node type and byteSize (R1-encode), the item header routine against the E5 reference header for all 14 type names on every cell of the size axis cut at 255|256, 65535|65536, 16777215|16777216 bytes and at every constant the code compares with (R26: format byte, number of length bytes, big-endian length, error beyond the limit), the message layout byte by byte as symbolic terms (R21: 4-byte big-endian length of text+10, session id, W|stream, function, 0, 0, system bytes, item), big-endian payload emission (R16), and that an incomplete item or message encodes to the empty slice on each of its incompleteness conditions separately (R15). Per-element payload emission is decided as terms (R16b).",
 		NotDecided:  "payload bytes for all values (two's complement of every integer, IEEE conversion delegated to math.Float*bits, 7-bit ASCII) are decided only as 'the bytes appended are byte(x >> 8k) of the stored value in descending k'; children order in lists and boolean 0/1 emission are not decided.",
 		Assumptions: stdAssumptions})
 	register(&Property{ID: "C03", Title: "HSMS decoder accepts exactly well-formed messages",
 		Rules:       []Rule{rFraming, rSTypes, rDispatch, rDivisible, rShift, rContH, rWidth, only(rIface, "hsms.parser", "consumer:"), only(rCkRep, "ast.New"), only(rAllocH, "R6-alloc"), rAdvance, rDomNodes, only(rDomMsg, "NewHSMSDataMessage")},
-		Explanation: "Every rejection the statement lists that has a structural form is decided as a guard denotation or a dominance fact: at least 14 bytes and success exactly when declared length equals bytes present (R5), PType 0 and exactly the E37 STypes over all 256x5 header byte pairs, with the right constructor per SType (R1d), exactly the 42 E5 format bytes with 1-3 length bytes accepted over all 256 values (R1c), payload length divisible by the element width in all three numeric handlers (R17), all bytes consumed before a data message is built (R5), lengths read without losing bits (R4), declared lengths checked against the remaining input (R6), constructor refusals converted to ok=false (R7), values built through validating factories with agreeing types and widths (R13, R2, R22).",
+		Explanation: "Every rejection the statement lists that has a structural form is decided as a guard denotation or a dominance fact: at least 14 bytes and success exactly when declared length equals bytes present (R5), PType 0 and exactly the E37 STypes over all 256x5 header byte pairs, with the right constructor per SType (R1d), exactly the 42 E5 format bytes with 1-3 length bytes accepted over all 256 values (R1c), payload length divisible by the element width in all three numeric handlers (R17), all bytes consumed before a data message is built (R5), lengths read without losing bits (R4), declared lengths checked against the remaining input (R6), constructor refusals converted to ok=false (R7), values built through validating factories with agreeing types and widths (R13, R2, R22). Values must be representable: the factories the decoder feeds refuse NaN/Inf/out-of-range/non-ASCII exactly (R14-domain), and the position advances by the declared length (R5b).",
 		NotDecided:  "that position arithmetic and slice bounds implement the grammar for every byte string, and re-encoding equality, are not decided (an independent reference decoder comparison is dynamic).",
 		Assumptions: stdAssumptions})
 	register(&Property{ID: "C04", Title: "SML print->parse round trip",
 		Rules:       []Rule{rSMLTab, rQuote, only(rSizes, "String:bounds", "bounds->variable", "bounds-flow", "NewASCIINodeVariable", "parseDataItemSize"), only(rLexClass, "upper-emit", "upper-consts"), rHdrSpell, rPrint, only(rFormat, "ast."), rLitSrc},
-		Explanation: "Decides that printer and reader use the same alphabets: each of the 14 type keywords is classified by the lexer and dispatched by the parser to the factory and element width of the same format, numbers are read with the item's own bit size (R1e-sml); every ASCII character the printer puts inside a quoted run can be read back there and the value never reaches the output unfiltered, while the reader takes quoted text literally (R23); ASCII-variable bounds are printed from, and parsed into, (min, max) in the same order (R14-size data flow).",
+		Explanation: "Decides that printer and reader use the same alphabets: each of the 14 type keywords is classified by the lexer and dispatched by the parser to the factory and element width of the same format, numbers are read with the item's own bit size (R1e-sml); every ASCII character the printer puts inside a quoted run can be read back there and the value never reaches the output unfiltered, while the reader takes quoted text literally (R23); ASCII-variable bounds are printed from, and parsed into, (min, max) in the same order (R14-size data flow). Printers write '<KEYWORD[n] ...>' with their own keyword, numbers in base 10 / shortest float of the item's width / 0b binary / T,F, and variable names at their positions (R1e-print); the 33 header spellings are read back in full by the header lexer's patterns (R1e-header); no format string is computed from data (R28); each numeric item is read by exactly one strconv function (R29).",
 		NotDecided:  "that parse(print(m)) equals m on values (number formatting, shortest float printing, ellipsis numbering, message-name lexing) is a run-time-value question and is not decided.",
 		Assumptions: stdAssumptions})
 	register(&Property{ID: "C05", Title: "SML literals denote exactly the stored values",
 		Rules:       []Rule{only(rErr, "sml.parser"), only(rIface, "sml.parser", "consumer:"), rSMLTab, rDomSML, rErrSupp, only(rCkRep, "ast.New"), rLitSrc},
-		Explanation: "No conversion error of a literal is discarded except four documented, range-guarded Atoi calls (R9); each item parser hands its factory only types it accepts (R2); bitSize is 8 x the item's width, base 0, and keyword->width dispatch is right (R1e-sml); the parser diagnoses exactly the literals outside [0,255] for binary, above 127 for ASCII codes and quoted runes, outside [0,127]/[0,255] for stream/function, and a number followed by a letter, digit or underscore (R14-sml, as guard denotations in sink mode); any diagnosed input returns no message (R25); the factories' own range checks cannot be bypassed (R13).",
+		Explanation: "No conversion error of a literal is discarded except four documented, range-guarded Atoi calls (R9); each item parser hands its factory only types it accepts (R2); bitSize is 8 x the item's width, base 0, and keyword->width dispatch is right (R1e-sml); the parser diagnoses exactly the literals outside [0,255] for binary, above 127 for ASCII codes and quoted runes, outside [0,127]/[0,255] for stream/function, and a number followed by a letter, digit or underscore (R14-sml, as guard denotations in sink mode); any diagnosed input returns no message (R25); the factories' own range checks cannot be bypassed (R13). Each numeric item type is read by exactly one strconv function, also through helpers (R29).",
 		NotDecided:  "that strconv's reading of a literal is the SML reading (trusted) and the lexer's number scanning beyond the terminator check are not decided.",
 		Assumptions: stdAssumptions})
 	register(&Property{ID: "C06", Title: "SML parser is total and all-or-nothing",
 		Rules:       []Rule{rContS, rAllocS, rPreS, rRecS, rEmit, rErrSupp, only(rImmut, "I5:go"), rTermCall, only(rLexClass, "comment-return"), only(rFormat, "sml.")},
-		Explanation: "Every refusal (explicit panic or failing type assertion) reachable from sml.Parse lies under a deferred recover on every call path (R7); no size taken from the input text sizes an allocation unchecked (R6, R6c); each lexer state sends at most as many tokens per invocation as the channel holds, runs only when the buffer is empty, and closes the channel after error/EOF (R19); messages are returned only when no error was reported and diagnostics have the documented form (R25); no goroutine is started (I5); recursion depth (R8) is an open, recorded finding.",
+		Explanation: "Every refusal (explicit panic or failing type assertion) reachable from sml.Parse lies under a deferred recover on every call path (R7); no size taken from the input text sizes an allocation unchecked (R6, R6c); each lexer state sends at most as many tokens per invocation as the channel holds, runs only when the buffer is empty, and closes the channel after error/EOF (R19); messages are returned only when no error was reported and diagnostics have the documented form (R25); no goroutine is started (I5); recursion depth (R8) is an open, recorded finding. Only errorf and lexEOF, which send a positioned token first, end the token stream, and the comment state returns to the interrupted state or lexEOF (R19b, R10), so a diagnostic always carries a token position; no format string is computed from data (R28).",
 		NotDecided:  "lexer termination (progress per state invocation), run-time index/slice panics in the lexer, time complexity and that reported positions lie inside the input are not decided.",
 		Assumptions: stdAssumptions})
 	register(&Property{ID: "C07", Title: "HSMS decoder is total, memory linear in the input",
@@ -155,7 +155,7 @@ func init() {
 		Assumptions: stdAssumptions})
 	register(&Property{ID: "C09", Title: "Filling variables is pure substitution",
 		Rules:       []Rule{rImmut, rFillPass, only(rIface, "FillVariables", "fillEllipsis", "consumer:"), rCkRep, rLossy, only(rFrame, "FillVariables"), rAllocSite},
-		Explanation: "Necessary conditions only: the receiver and shared children are never written (R12); in every FillVariables the value looked up in the caller's map is stored into the factory's argument list as is, the list is never read back before the factory sees it, and the factory receives it (R2b) in a type set the factory accepts (R2); the result is validated by the same checkRep a constructor runs (R13) with the same lossless-conversion guarantee (R3, R3b) — the 'refused exactly as the constructor refuses it' clause; the message-level fill keeps every header field (R11).",
+		Explanation: "Necessary conditions only: the receiver and shared children are never written (R12); in every FillVariables the value looked up in the caller's map is stored into the factory's argument list as is, the list is never read back before the factory sees it, and the factory receives it (R2b) in a type set the factory accepts (R2); the result is validated by the same checkRep a constructor runs (R13) with the same lossless-conversion guarantee (R3, R3b) — the 'refused exactly as the constructor refuses it' clause; the message-level fill keeps every header field (R11). Nodes are allocated only by their own factory, so no fill path bypasses the factory's checks (R13b).",
 		NotDecided:  "equality with direct construction, order preservation and composition of successive fills are relations between values of different runs; nothing structural stands for them.",
 		Assumptions: stdAssumptions})
 	register(&Property{ID: "C11", Title: "Items and messages are immutable; no aliasing with caller data",
@@ -165,12 +165,12 @@ func init() {
 		Assumptions: append([]string{"external functions on the read-only allow-list (fmt, strings, strconv, unicode, utf8, math, regexp, binary.BigEndian.Uint*) do not modify or retain their slice arguments"}, stdAssumptions...)})
 	register(&Property{ID: "C12", Title: "Constructors store exactly what was passed or refuse it",
 		Rules:       []Rule{rDomMsg, rDomNodes, rLossy, only(rErr, "ast."), rCkRep, rIface, rAnchored, rLimit, only(rSizes, "checkRep:bounds", "FillVariables"), rCensus, rAllocSite},
-		Explanation: "Each documented value domain is compared with the code's guards as sets, by three-valued evaluation over one representative per cell of the arrangement cut by all constants of the code, of its observed comparisons and of the specification: stream, function, wait bit x function parity, direction, session id, system-bytes length, message-name runes, element ranges of I1-I8/U1-U8/F4/F8/binary/ASCII per byteSize, admissible byteSizes, the size limit, ASCII-variable bounds (R14); every integer conversion in a factory is value-preserving or dominated by a refusal of the values it would change, and arguments reach the stored slice through conversions only, placeholders being zero (R3, R3b); accepted dynamic types are exactly the documented ones (R2); no parse error is dropped (R9); every allocation is validated before it is returned (R13); name patterns are anchored (R24).",
+		Explanation: "Each documented value domain is compared with the code's guards as sets, by three-valued evaluation over one representative per cell of the arrangement cut by all constants of the code, of its observed comparisons and of the specification: stream, function, wait bit x function parity, direction, session id, system-bytes length, message-name runes, element ranges of I1-I8/U1-U8/F4/F8/binary/ASCII per byteSize, admissible byteSizes, the size limit, ASCII-variable bounds (R14); every integer conversion in a factory is value-preserving or dominated by a refusal of the values it would change, and arguments reach the stored slice through conversions only, placeholders being zero (R3, R3b); accepted dynamic types are exactly the documented ones (R2); no parse error is dropped (R9); every allocation is validated before it is returned (R13); name patterns are anchored (R24). Nodes are allocated only by their own factory (R13b); every explicit refusal of pkg/ast is live, membership refusals insert what they test, and the refusals the statement names are present (R14c).",
 		NotDecided:  "that stored values are printed and encoded unchanged (C02/C04), float rounding, the languages of the name patterns beyond anchoring, and the list rules (ellipsis position, duplicates) beyond the presence of validation on every construction path are not decided.",
 		Assumptions: stdAssumptions})
 	register(&Property{ID: "C13", Title: "16,777,215-byte item limit and length header",
 		Rules:       []Rule{rLimit, rHeader, rEncTab, rShift, only(rAllocH, "parseMessageText"), rAllocSite},
-		Explanation: "The limit constant is 16,777,215 and each of the 7 factories refuses exactly count*width > limit for all 14 formats (R14-limit, cells at limit/width); the header routine returns an error beyond the limit and otherwise the E5 format byte, the minimal number of length bytes and the big-endian length for every type name on every cell of the size axis, including 255|256 and 65535|65536 (R26); each node requests the header of its own type for its element count (R1-encode); the decoder accumulates 1-3 length bytes without losing bits (R4).",
+		Explanation: "The limit constant is 16,777,215 and each of the 7 factories refuses exactly count*width > limit for all 14 formats (R14-limit, cells at limit/width); the header routine returns an error beyond the limit and otherwise the E5 format byte, the minimal number of length bytes and the big-endian length for every type name on every cell of the size axis, including 255|256 and 65535|65536 (R26); each node requests the header of its own type for its element count (R1-encode); the decoder accumulates 1-3 length bytes without losing bits (R4). No path allocates a node outside its factory, so the limit check cannot be bypassed (R13b).",
 		NotDecided:  "the header is decided on one representative per cell of the size axis, which is exact as long as the routine only compares the size (or bytes of it) with constants; a sweep of all 16.7M sizes is dynamic and not done.",
 		Assumptions: stdAssumptions})
 	register(&Property{ID: "C14", Title: "HSMS control messages",
@@ -180,12 +180,12 @@ func init() {
 		Assumptions: stdAssumptions})
 	register(&Property{ID: "C15", Title: "Declared item sizes are enforced",
 		Rules:       []Rule{rSizes, only(rAllocSite, "ASCIINode")},
-		Explanation: "The three guards involved only compare integers, so their denotation is decided exactly on the weak orderings of (size, lower, upper, -1): the parser's size check reports an error exactly when not (lower <= size and (upper == -1 or size <= upper)) (512 tuples), ASCIINode.FillVariables reaches NewASCIINode exactly when min <= len and (max == -1 or len <= max), and ASCIINode.checkRep accepts exactly min >= 0, max >= -1, min <= max unless max == -1; the bounds travel unpermuted from the size token through parseDataItemSize, parseDataItem, parseASCII and NewASCIINodeVariable into the fields, FillInStringLength and the printer's three size forms; the size check is reached for all 14 item types with item.Size() and the size token; [n] yields (n, n) and [a..b] yields (a, b).",
+		Explanation: "The three guards involved only compare integers, so their denotation is decided exactly on the weak orderings of (size, lower, upper, -1): the parser's size check reports an error exactly when not (lower <= size and (upper == -1 or size <= upper)) (512 tuples), ASCIINode.FillVariables reaches NewASCIINode exactly when min <= len and (max == -1 or len <= max), and ASCIINode.checkRep accepts exactly min >= 0, max >= -1, min <= max unless max == -1; the bounds travel unpermuted from the size token through parseDataItemSize, parseDataItem, parseASCII and NewASCIINodeVariable into the fields, FillInStringLength and the printer's three size forms; the size check is reached for all 14 item types with item.Size() and the size token; [n] yields (n, n) and [a..b] yields (a, b). ASCII nodes are allocated only by their factories, so bounds cannot be dropped on the way (R13b).",
 		NotDecided:  "the size scanner in the lexer and what Size() counts for each node are not decided.",
 		Assumptions: stdAssumptions})
 	register(&Property{ID: "C16", Title: "Variable listing, encodability, size",
 		Rules:       []Rule{rToBytes, only(rCkRep, "ListNode", "DataMessage"), only(rImmut, "Variables", "getVariableNames", "variablesSwapKeyValue"), only(rCensus, "ListNode", "duplicated"), only(rHeader, "R26"), only(rLimit, "R14-limit"), rOrder, only(rPrint, "variables-at-positions"), rAllocSite},
-		Explanation: "An item or message encodes to bytes only when it reports no variables, decided per type by evaluating ToBytes with the variable count bound: a non-zero count forces the empty slice on every reachable return, zero allows bytes; a list returns the empty slice as soon as a child does; a message additionally requires a decided wait bit and a session id, each condition separately (R15); every list construction runs the tree-wide duplicate check because every ListNode allocation is validated (R13); the observers return fresh slices (R12).",
+		Explanation: "An item or message encodes to bytes only when it reports no variables, decided per type by evaluating ToBytes with the variable count bound: a non-zero count forces the empty slice on every reachable return, zero allows bytes; a list returns the empty slice as soon as a child does; a message additionally requires a decided wait bit and a session id, each condition separately (R15); every list construction runs the tree-wide duplicate check because every ListNode allocation is validated (R13); the observers return fresh slices (R12). The variable list is sorted ascending by position, Size() is len(values), printers put names at their positions, lists walk children in index order (R27, R1e-print); duplicate detection inserts what it tests (R14c); nodes come only from factories (R13b); an item that the factory accepts always gets a header (R26 + R14-limit agree on the limit).",
 		NotDecided:  "that the listed order equals the printed order and that Size() equals the number of printed elements are relations between two run-time outputs and are not decided.",
 		Assumptions: stdAssumptions})
 	register(&Property{ID: "C17", Title: "Safe for concurrent use",
